@@ -111,6 +111,26 @@ func (ma *mergeAnalysis) ruleR9(c *Ctx) {
 				if !okc {
 					bad = "the clear is not controlled by the plugin's removal marker"
 				}
+				// the only length condition allowed is the entry guard (empty => nothing to do)
+				for _, cd := range mf.itemControls(b) {
+					n := normCond(cd)
+					bo, ok := n.V.(*ssa.BinOp)
+					if !ok {
+						continue
+					}
+					if _, isLen := isBuiltinCall(bo.X, "len"); !isLen {
+						continue
+					}
+					other := cd.If.Block().Succs[0]
+					if cd.Pol {
+						other = cd.If.Block().Succs[1]
+					}
+					k, isC := constInt(bo.Y)
+					entryGuard := isC && k == 0 && isExit(other) && len(other.Instrs) <= 3
+					if !entryGuard {
+						bad = fmt.Sprintf("the clear additionally depends on the length of the plugin's list (test at %s): a response that carries only the removal marker does not release the earlier plugin's ownership", c.pos(cd.If.Pos()))
+					}
+				}
 			}
 			// (2) not controlled by membership in / iteration over the unmarked part
 			for _, cd := range mf.itemControls(b) {
